@@ -4,6 +4,8 @@ import CTV.Lemmas.DerHeader
 import CTV.Gen.Asn1Lax
 import CTV.Lemmas.DerMarshal
 import CTV.Lemmas.DerCanonStrict
+import CTV.Lemmas.DerSize
+import CTV.Lemmas.DerDialect
 /-!
 # C10 — The ASN.1 fork is as strict as upstream; lax mode only adds acceptances
 
@@ -142,11 +144,28 @@ theorem parse_total_fuel (d : Dialect) (u : Bool × Nat × Bool) (bs : Bytes) :
 example : parseField Dialect.upstream .strict (.seqOf false .int64) {} [0x30, 0x06, 0x02, 0x01, 0x05, 0x02, 0x01, 0x07, 0xFF] =
     .ok (.list [.int 5, .int 7], [0xFF]) := by rfl
 
-/- FULL: parse_total (no allocation beyond the input):
-     parseField d m t p bs = .ok (v, rest) → v.size ≤ 2 * (bs.length - rest.length)
-   where `AVal.size` (CTV.Lemmas.DerTotal) counts the octets / elements the decoder allocates. Not yet proved in
-   Lean (needs the length bounds of the ISO 8859-1 and BMP transcoders and of the OID arc loop); the bound is
-   checked on every case by the harness (`alloc` oracle: decoded size ≤ 2 × input length). -/
+/-- **no allocation beyond the input (the size bound).** For every dialect, mode, target type, parameter record and input: what a
+successful `parseField` returns holds at most twice as many octets / elements as the decoder consumed — `AVal.size`
+(CTV.Lemmas.DerTotal) counts string octets after transcoding, OCTET / BIT STRING and RawValue contents, OID arcs and one unit per slice
+element, recursively; `RawContent` / `FullBytes` are views of the input. The factor 2 is reached by the lax ISO 8859-1 reading of a
+PrintableString and by BMPString (each UTF-16 unit gives at most 4 octets of UTF-8); everything else is ≤ 1. The harness checks the
+same bound on the implementation's decoded values (`alloc` oracle). -/
+theorem parse_total_size (d : Dialect) (m : Mode) (t : ATy) (p : FP) (bs : Bytes) (v : AVal) (rest : Bytes)
+    (h : parseField d m t p bs = .ok (v, rest)) : rest.length ≤ bs.length ∧ v.size ≤ 2 * (bs.length - rest.length) :=
+  (parseField_sizeOK d m t p bs v rest h).le
+
+-- the factor is attained up to the header: six octets in, eight octets of text out (lax PrintableString read as ISO 8859-1)
+example : parseField Dialect.fork .lax .str {} [0x13, 0x04, 0xe9, 0xe8, 0xe0, 0xfc] =
+    .ok (.str 19 [0xc3, 0xa9, 0xc3, 0xa8, 0xc3, 0xa0, 0xc3, 0xbc], []) := by rfl
+
+/-- **the decoder reads three of the four fork/upstream switches** (`dialect_irrelevant`): in `lax` and `strict` mode two dialects
+that agree on base-128 minimality (F11a), the GeneralizedTime fraction (F11d) and the `interface{}` BOOLEAN (F11b) decode every
+input for every target to the same result; the SET OF switch (F11c) is read by `marshalField` alone. So fork and upstream decoding
+can only differ through F11a / F11b / F11d, and re-marshalling only through F11c on top. -/
+theorem dialect_irrelevant (d1 d2 : Dialect) (h1 : d1.b128min = d2.b128min) (h2 : d1.genTimeFraction = d2.genTimeFraction)
+    (h3 : d1.anyBool = d2.anyBool) (m : Mode) (hm : m.isCanon = false) (t : ATy) (p : FP) (bs : Bytes) :
+    parseField d1 m t p bs = parseField d2 m t p bs :=
+  parseField_deq d1 d2 ⟨h1, h2, h3⟩ m hm t p bs
 
 /-! ## Marshal ∘ Unmarshal on strict DER
 
@@ -239,10 +258,11 @@ theorem makeBigInt_regenerated :
        "if len(bytes) > 0 && bytes[0]&0x80 != 0 { return multiEncoder([]encoder{byte00Encoder, bytesEncoder(bytes)}), nil }",
        "return bytesEncoder(bytes), nil"] := by decide
 
-/- FULL (still open, the converse direction): parse_marshal —
+/- Beyond the property statement (not proved): the converse `Unmarshal ∘ Marshal`,
      WfVal t p v → marshalField d t p v = .ok b → parseField d .canon t p (b ++ rest) = .ok (v, rest)
-   i.e. `Canon` contains everything `Marshal` writes (non-vacuity of `Canon` independent of the parser). Not proved; what stands in
-   for it: the `c` lines of the harness (the implementation's Marshal∘Unmarshal is exact ⇔ the model's `canon` accepts; about half of
+   i.e. `Canon` contains everything `Marshal` writes (non-vacuity of `Canon` independent of the parser). The property's clause
+   ("marshalling an unmarshalled strict-DER value reproduces the input bytes") is `marshal_parse` above, in full. What stands in for the
+   converse: the `c` lines of the harness (the implementation's Marshal∘Unmarshal is exact ⇔ the model's `canon` accepts; about half of
    all generated inputs are canon-accepted), and the instance below. -/
 
 -- an instance: strict DER for a struct with an optional defaulted field, an explicit tag and a SET OF; Canon accepts, marshal reproduces
